@@ -47,12 +47,18 @@ def run(ctx):
     sh = [s for s in scns if s["kind"] == "SH"]
     cr = [s for s in scns if s["kind"] == "CR"]
     ls = [s for s in scns if s["kind"] in ("KS", "PSK", "TK")]
-    if not sh or not cr or not ls:
-        raise vlib.Machinery("C31 vacuity: scenario grid incomplete (%d/%d/%d)" % (len(sh), len(cr), len(ls)))
+    chw = [s for s in scns if s["kind"] == "CHW"]
+    if not sh or not cr or not ls or len(chw) < 300:
+        raise vlib.Machinery("C31 vacuity: scenario grid incomplete (%d/%d/%d/%d)" % (len(sh), len(cr), len(ls), len(chw)))
     ids = sorted(ctx.drv("dumpspecs", {"ids": []}, prog="gen")[0]["specs"].keys())
     evs = []
     evs += ctx.drv("pubhello", {"ids": ids, "n": 2 if ctx.quick else 12}, prog="gen", timeout=1200)
     evs += ctx.drv("pubhello", {"ids": RANDOMIZED, "n": 40 if ctx.quick else 400}, prog="gen", name="pubhello_r", timeout=1200)
+    # ClientHellos encoded by the TLA+ reference encoder over presence combinations of the optional members
+    grid = ctx.drv("pubhelloraw", {"scns": [{"f": s["f"], "raw": s["raw"]} for s in chw]}, prog="gen", timeout=1200)
+    if len(grid) != len(chw):
+        raise vlib.Machinery("C31: %d grid hellos sent, %d events back" % (len(chw), len(grid)))
+    evs += grid
     nch = len(evs)
     evs += ctx.drv("pubserverhello", {"scns": sh}, prog="gen", timeout=1200)
     evs += ctx.drv("pubcertreq", {"scns": cr}, prog="gen")
@@ -74,13 +80,20 @@ def run(ctx):
 
     # ---- vacuity: the views must actually carry content
     chs = [e for e in evs[:nch] if not e["err"]]
+    gridok = [e for e in grid if not e["err"]]
+    for fld, member in (("SupportedPoints", "points"), ("SupportedCurves", "groups"), ("KeyShares", "shares"), ("Cookie", "cookie")):
+        if not any(e["pub"].get(fld) for e in gridok if e["f"][member] == "small") or \
+           not any(not e["pub"].get(fld) for e in gridok if e["f"][member] == "absent"):
+            raise vlib.Machinery("C31 vacuity: grid hellos do not show member %s both present and absent in the parsed view" % member)
+    if not any(e["f"]["groups"] == "small" and e["f"]["points"] == "absent" for e in gridok):
+        raise vlib.Machinery("C31 vacuity: no grid hello with supported_groups but without ec_point_formats")
     if len(chs) < len(ids) or not any(e["pub"].get("KeyShares") for e in chs) or not any(e["pub"].get("AlpnProtocols") for e in chs):
         raise vlib.Machinery("C31 vacuity: parsed ClientHello views are empty or missing (%d of %d)" % (len(chs), nch))
     if not any(e["ev"] == "Suite" for e in suites) or not any(e["ev"] == "Keys" for e in suites):
         raise vlib.Machinery("C31 vacuity: no cipher-suite / key views recorded")
 
     # ---- binding canary: one field of a good record changed, one event with a byte of the re-marshaled hello changed
-    good = next(e for e in chs if not any(k.startswith("CH:%s:" % e["id"]) for k in rejected))
+    good = next(e for e in chs if e["id"] != "tlc-grid" and not any(k.startswith("CH:%s:" % e["id"]) for k in rejected))
     c1 = copy.deepcopy(good); c1["pub2"]["CipherSuites"][0] ^= 1
     c2 = copy.deepcopy(good); c2["privB"]["serverName"] = c2["privB"]["serverName"][:-1]
     c3 = copy.deepcopy(good); c3["m"][-1] ^= 1
@@ -97,7 +110,9 @@ def run(ctx):
     # ---- reproduce and report
     for sig, items in sorted(rejected.items()):
         ev, fails, detail = items[0]
-        if ev["ev"] == "CH":
+        if ev["ev"] == "CH" and ev["id"] == "tlc-grid":
+            again = ctx.drv("pubhelloraw", {"scns": [{"f": ev["f"], "raw": ev["raw"]}]}, prog="gen", name="again")
+        elif ev["ev"] == "CH":
             again = ctx.drv("pubhello", {"ids": [ev["id"]], "n": 3}, prog="gen", name="again")
         elif ev["ev"] == "SH":
             again = ctx.drv("pubserverhello", {"scns": [{k.lower(): v for k, v in ev["scn"].items()}]}, prog="gen", name="again")
@@ -113,15 +128,17 @@ def run(ctx):
         replay = {"event": ev["ev"], "fails": fails, "detail": detail, "cases": len(items)}
         if ev["ev"] == "CH":
             replay["id"] = ev["id"]; replay["raw_hex"] = bytes(ev["raw"]).hex()
+            if "f" in ev:
+                replay["members"] = ev["f"]; replay["all_members_of_class"] = [e["f"] for e, _, _ in items[:20]]
         elif ev["ev"] in ("SH", "CR"):
             replay["scn"] = ev["scn"]
         ctx.finding(sig, "conversion rejected by spec/PubViews.tla: %s %s" % (fails, json.dumps(detail)), replay)
 
-    cov = {"evaluations": len(evs), "distinct_nontrivial": len({e["id"] for e in chs}) + len(sh) + len(cr) + len(ls) + len(suites),
+    cov = {"evaluations": len(evs), "distinct_nontrivial": len({e["id"] for e in chs}) + len(chw) + len(sh) + len(cr) + len(ls) + len(suites),
            "rule": "evaluations = logged conversion bundles (each: both conversion directions, Unmarshal+Marshal, clear-Raw re-marshal and re-parse) judged by TLC; distinct = ClientHelloIDs + TLC-enumerated ServerHello/CertificateRequest/list scenarios + cipher-suite and key views",
            "samples": [{"clienthello": good["id"], "fields": sorted(good["pub"].keys())[:12]}, {"serverhello_scenario": sh[len(sh) // 2]},
                        {"list_scenario": ls[-1]}],
-           "clienthellos": nch, "serverhello_scenarios": len(sh), "certreq_scenarios": len(cr), "list_scenarios": len(ls),
+           "clienthellos": nch, "clienthello_presence_scenarios": len(chw), "presence_coverage": "all pairs" if ctx.quick else "all triples", "serverhello_scenarios": len(sh), "certreq_scenarios": len(cr), "list_scenarios": len(ls),
            "suite_views": sum(1 for e in suites if e["ev"] == "Suite"), "key_views": sum(1 for e in suites if e["ev"] == "Keys"),
            "exhaustive": False, "exhaustive_part": "the field-presence grid of PubViews_MC (every combination, emitted by TLC)"}
     return "other", cov, [
